@@ -384,3 +384,51 @@ func H_C10_sinks() {
 	vAssert(badCtx == 0, "hooks-get-the-callers-context")
 	vReach("end")
 }
+
+//verif:witness H_C10_ctxslice end
+//verif:bound C10 all context fields handed out as views of one backing array (first event: 1 field with spare capacity, second event: 2 fields over the same array), sync logger with text or JSON layout at logger level or in the appender: each line shows the context fields its own hook call returned, ahead of the call's own fields
+func H_C10_ctxslice() {
+	base := make([]Field, 2, 4)
+	base[0], base[1] = String("c1", "x"), String("c2", "y")
+	n := 0
+	FieldsFromContext = func(ctx context.Context) []Field {
+		n++
+		if n == 1 {
+			return base[:1] // spare capacity: an append would write into base[1]
+		}
+		return base[:2]
+	}
+	ts := time.Unix(1700000000, 0)
+	TimeNow = func(ctx context.Context) time.Time { return ts }
+	savedCaller := enableCaller
+	enableCaller = false
+	saved := Stdout
+	sink := &vSink{}
+	Stdout = sink
+	defer func() { TimeNow, FieldsFromContext = nil, nil; enableCaller = savedCaller; Stdout = saved }()
+	var lay Layout = &TextLayout{BaseLayout{FileLineLength: 48}}
+	jsonLay := vChoose("layout", 2) == 1
+	if jsonLay {
+		lay = &JSONLayout{BaseLayout{FileLineLength: 48}}
+	}
+	all := LevelRange{MinLevel: NoneLevel, MaxLevel: MaxLevel}
+	logger := &SyncLogger{LoggerBase: LoggerBase{Name: "s", Level: all}}
+	if vChoose("loggerLayout", 2) == 1 {
+		logger.Layout = lay
+	}
+	logger.AppenderRefs.AppenderRefs = []*AppenderRef{{Appender: &ConsoleAppender{Layout: lay}, Level: all}}
+	tag := &Tag{tag: "_t_x", logger: logger}
+	Info(vCtx, tag, String("own", "first"))
+	Info(vCtx, tag, String("own", "second"))
+	vAssert(len(sink.writes) == 2 && n == 2, "two-events-two-hook-calls")
+	if len(sink.writes) == 2 {
+		if jsonLay {
+			vAssert(vContains(sink.writes[0], "\"c1\":\"x\",\"own\":\"first\"") && !vContains(sink.writes[0], "c2"), "first-line-carries-its-own-context-fields")
+			vAssert(vContains(sink.writes[1], "\"c1\":\"x\",\"c2\":\"y\",\"own\":\"second\""), "second-line-carries-its-own-context-fields")
+		} else {
+			vAssert(vContains(sink.writes[0], "||c1=x||own=first\n") && !vContains(sink.writes[0], "c2"), "first-line-carries-its-own-context-fields")
+			vAssert(vContains(sink.writes[1], "||c1=x||c2=y||own=second\n"), "second-line-carries-its-own-context-fields")
+		}
+	}
+	vReach("end")
+}
